@@ -301,7 +301,8 @@ VAR_FIELD_TABLE = {
     'last_assigned_location': {(ASSIGN_IMPL, 'core::mem::replace')},
     'read_only_location': {(VREF + "::<'_>::make_read_only", 'core::option::Option::<T>::get_or_insert')},
     'is_exported': {(VREF + "::<'_>::export", 'assign')},
-    'quirk': {(VREF + "::<'_>::set_quirk", 'assign')},
+    # fix 18bb883: an assignment removes the LineNumber quirk, as the documentation of the quirk says (decided by C16.R11)
+    'quirk': {(VREF + "::<'_>::set_quirk", 'assign'), (ASSIGN_IMPL, 'assign')},
 }
 GUARDED = {'value', 'last_assigned_location'}
 VAR_OVERWRITERS = {VSET + '::get_or_new_impl': 'volatile variable migrates onto the regular variable it shadowed'}
@@ -1082,3 +1083,31 @@ def r10(cx):
 
 RS.explanation += ' Added later: ${x=w}, $((x=..)), for, read, getopts and cd assign with Scope::Global (R7); get_or_new never takes over an entry from below the target context (R8). With allexport, a read-only variable (whose assignment will fail) is not exported (R9).'
 RS.explanation += ' In SetVariables::execute (typeset / local / export / readonly) every operand is declared with get_or_create_variable(name, self.scope.into()) or reported as an ExecuteError: no path of the operand loop skips the declaration (R10).'
+
+
+# ---------------------------------------------------------------------------------------
+# added after the independent report C16w3 #3 (fix 18bb883: LINENO kept its special meaning after an assignment)
+@RS.rule('C16.R11', 'K-PASS', 'reading a variable returns what was assigned: a successful assignment removes the LineNumber quirk (documented on '
+         'Quirk::LineNumber: "lost when an assignment sets a new value") - on the path of assign_impl that stores the value the quirk '
+         'field is looked at and cleared, so `LINENO=55; echo $LINENO` prints 55')
+def r11(cx):
+    F = cx.F
+    body = F.body(ASSIGN_IMPL)
+    cx.fn(body.fn)
+    stores = [(blk, t) for blk, t in body.calls() if pp.callee(t) == 'core::option::Option::<T>::replace']
+    cx.require(stores, 'assign_impl no longer stores the value with Option::replace (anchor moved)')
+    clears = [w for w in Q.field_writes(body, VAR, 'quirk') if w[3] == 'assign']
+    cx.site('assign_impl: value stored x%d; quirk written x%d' % (len(stores), len(clears)))
+    if not clears:
+        cx.violation(ASSIGN_IMPL, 'quirk-survives-assignment', 'an assignment never touches the quirk of the variable: LINENO keeps expanding to '
+                     'the line number after `LINENO=55` (the assigned value is stored but never seen), although the documentation of '
+                     'Quirk::LineNumber says the quirk is lost when a value is assigned', loc=body.loc(stores[0][1]))
+        return
+    # the clearing must be reachable from the store (same success path), and must not sit on the read-only error path
+    ok = any(w[0] in body.reachable(sb) or sb in body.reachable(w[0]) for w in clears for sb, st in stores)
+    if not ok:
+        cx.violation(ASSIGN_IMPL, 'quirk-not-cleared-on-success-path', 'the quirk is written, but not on the path that stores the assigned value',
+                     loc=body.loc(clears[0][2]))
+
+
+RS.explanation += ' A successful assignment removes the LineNumber quirk (R11).'
